@@ -72,7 +72,7 @@ impl Prop for C01 {
     }
     fn runs(&self, tier: Tier) -> u64 {
         match tier {
-            Tier::Quick => 1500,
+            Tier::Quick => 3200,
             Tier::Thorough => 40000,
         }
     }
